@@ -160,7 +160,7 @@ Inductive snode := SNode {
   s_lab : string; s_kind : kind; s_cls : string; s_failed : bool; s_running : bool; s_exe : exe;
   s_det : option string;
   s_ins : list (string * slot); s_outs : list (string * slot);
-  s_sin : list (string * list string); s_sout : list string;
+  s_sin : list (string * list string); s_sout : list (string * list string);
   s_kids : list snode;
   s_dconns : list (cref * cref); s_sconns : list (cref * cref);
   s_start : list string; s_prov : list string;
@@ -209,7 +209,7 @@ Fixpoint dump (det : option string) (path : string) (n : node) {struct n} : res 
           let mk il ol :=
             SNode lab kd cls fl rn (drop_live ex) det
                   (map (fun c => (dlab c, dval c)) ins) (map (fun c => (dlab c, dval c)) outs)
-                  (map (fun c => (slab c, srcvd c)) sin) (map slab sout)
+                  (map (fun c => (slab c, srcvd c)) sin) (map (fun c => (slab c, srcvd c)) sout)
                   sk
                   (if is_comp kd then pairs (din kids) else [])
                   (if is_comp kd then pairs (sinv kids) else [])
@@ -365,7 +365,7 @@ Fixpoint restore (s : snode) {struct s} : res node :=
                   (map (fun c => mkD (fst c) (snd c) [] RNone) ins)
                   (map (fun c => mkD (fst c) (snd c) [] RNone) outs)
                   (map (fun c => mkS (fst c) [] (snd c)) sin)
-                  (map (fun c => mkS c [] []) sout)
+                  (map (fun c => mkS (fst c) [] (snd c)) sout)
                   kids0 start prov)
             dconns sconns il ol
       end
